@@ -36,7 +36,9 @@ EXPLANATION = (
     ' '
     "R-C12.11 in FieldSignature.diff every path that leaves the handler of a failed field construction reaches changed_attrs.append('field_type') (flag-sensitive path search: constants assigned to local flags prune the branches they rule out)."
     ' '
-    'R-C12.12 = R-C05.8.')
+    'R-C12.12 = R-C05.8.'
+    ' '
+    "R-C12.5 also requires the null exemption of AddField's missing-initial guard to be a truthiness test; R-C12.4 treats fail() as non-returning and is flow-sensitive about rebinding.")
 NOT_DECIDED = (
     'That every perturbed evolution is in fact rejected (quantifies over '
     'evolutions and needs the diff/simulate semantics executed).')
@@ -365,10 +367,26 @@ def r4_fail_raises(ctx):
             a = pred.ast
             ok = False
             if isinstance(a, ast.Return) and isinstance(a.value, ast.Name):
-                tests = [t for t in g.nodes if t.kind == 'test' and
-                         isinstance(t.ast, ast.Name) and
-                         t.ast.id == a.value.id]
-                ok = any(g.guarded_by(pred, t, 'T') for t in tests)
+                # `return x` must not be reachable from an edge on which x
+                # is falsy, given that fail() never returns
+                from ..util import none_edges
+                falsy = none_edges(g, a.value.id)
+                rebinds = [x for x in g.nodes if x.kind == 'stmt' and
+                           isinstance(x.ast, ast.Assign) and any(
+                               isinstance(tg, ast.Name) and
+                               tg.id == a.value.id for tg in x.ast.targets)]
+                ok = bool(falsy)
+                for t, lab in falsy:
+                    for s_, l in t.succ:
+                        if l != lab or s_ in fails or s_ in rebinds:
+                            continue
+                        truthy = {(tt.id, 'F' if ll == 'T' else 'T')
+                                  for tt, ll in falsy}
+                        if s_ is pred or g.path(
+                                s_, pred, avoid=fails + rebinds,
+                                follow_exc=False,
+                                drop_edges=truthy) is not None:
+                            ok = False
             if not ok:
                 bad = True
                 ctx.finding(f, a, 'Simulation.%s can return without a truthy '
@@ -458,6 +476,22 @@ def r5_precondition_guards(ctx):
     else:
         ctx.finding(f, None, 'missing-initial guard lost its null / M2M '
                     'exemption tests', key='initial-exemptions')
+    # an explicit null=False is non-null: the exemption must be a
+    # truthiness test of the attribute, not an identity test with None
+    for t, _lab, _fn in guards:
+        for c in ast.walk(t.ast):
+            if isinstance(c, ast.Compare) and len(c.ops) == 1 and \
+                    isinstance(c.ops[0], (ast.Is, ast.IsNot)) and \
+                    "'null'" in unparse(c.left) and \
+                    unparse(c.comparators[0]) == 'None':
+                ctx.finding(f, c, 'the missing-initial guard of '
+                            'AddField.simulate exempts every mutation whose '
+                            'null attribute is present (%s): an explicit '
+                            'null=False - which the optimiser writes when it '
+                            'folds ChangeField(null=False) into the AddField '
+                            '- is no longer rejected' %
+                            ' '.join(unparse(c).split()),
+                            key='null-exemption-by-identity')
     # ChangeField
     f = p.func('mutations.change_field', 'ChangeField.simulate')
     g, fails, guards = _fail_guard_tests(ctx, f)
